@@ -79,6 +79,12 @@ func (m *CPU) Run(app risc.Application) (int, error) {
 		m.writeUnit.cycle(m.ctx, m.writeBus)
 
 		if ret {
+			// Older results still queued for the write unit are written before returning
+			for !m.writeBus.IsEmpty() {
+				cycle++
+				m.ctx.VerifTick(cycle)
+				m.writeUnit.cycle(m.ctx, m.writeBus)
+			}
 			break
 		}
 		if flush {
